@@ -2,6 +2,7 @@ import Driver.Util
 import Driver.CatsWire
 import SymbolVerif.Model.Cats.Expand
 import SymbolVerif.Model.Cats.Validate
+import SymbolVerif.Proofs.CatsPostClean
 namespace Driver.C06
 open SymbolVerif SymbolVerif.Cats Driver Driver.CatsWire
 
@@ -20,6 +21,10 @@ def handle : Handler
   | "validate", "post" :: toks => do
     let S ← parseSchema (" ".intercalate toks)
     pure (errsJson (validate .post S))
+  | "hyps", toks => do
+    -- the decidable side conditions of `post_errors_after_clean_pre`
+    let S ← parseSchema (" ".intercalate toks)
+    pure (toString (decide (DeclaredBeforeUse S)) ++ " " ++ toString (refsWellFormed S))
   | "pipeline", toks => do
     let S ← parseSchema (" ".intercalate toks)
     let pre := validate .pre S
